@@ -108,7 +108,7 @@ class Model:
     """Reference model interface (see DESIGN.md 3.3 for the conventions)."""
 
     ports: dict[str, float] = {}
-    shared_ports: tuple[str, ...] = ("peek", "clear", "order")  # documented nonexclusive methods: never given a rival caller
+    shared_ports: tuple[str, ...] = ()  # the documented nonexclusive methods of the component: two callers requesting one are both served
     conflicts = False  # ports conflict with each other: only `done => allowed` is checked
     needs_dones = False  # readiness depends on the observed same-cycle run of other ports
     check_ready = True
@@ -182,7 +182,7 @@ def run_history(rec: Rec, make, rnd: random.Random, cycles: int, case: dict, kla
         try:
             dut, model = make(rnd)
             if rivals:
-                circ = RivalCircuit(dut, [p for p in model.ports if p.partition("#")[0] not in model.shared_ports])
+                circ = RivalCircuit(dut, list(model.ports))  # documented nonexclusive methods get a second caller too: both must be served
             else:
                 circ = SimpleTestCircuit(dut)
             sim = PysimSimulator(circ, max_cycles=cycles + drain + 20)
@@ -226,7 +226,7 @@ def run_history(rec: Rec, make, rnd: random.Random, cycles: int, case: dict, kla
                     probs = {p: rnd.choice(choices) * w for p, w in model.ports.items()}
                     epoch_end = cyc + rnd.randint(20, 120)
                 model.begin_cycle(rnd)
-                en, args = {}, {}
+                en, args, whos = {}, {}, {}
                 for p, io in ios.items():
                     en[p] = rnd.random() < probs.get(p, 0)
                     a = model.args(p, rnd)
@@ -238,8 +238,11 @@ def run_history(rec: Rec, make, rnd: random.Random, cycles: int, case: dict, kla
                     if p in riv and en[p]:
                         x = rnd.random()
                         who = "both" if x < 0.45 else "rival" if x < 0.6 else "main"
+                        if p.partition("#")[0] in model.shared_ports:
+                            who = "both" if x < 0.6 else "main"
                         if who == "both":
                             rec.count("cycles_with_two_callers_requesting_one_method")
+                    whos[p] = who
                     ctx.set(io.adapter.en, en[p] and who != "rival")
                     if a:
                         ctx.set(io.adapter.data_in, a)
@@ -256,6 +259,16 @@ def run_history(rec: Rec, make, rnd: random.Random, cycles: int, case: dict, kla
                     for j, p in enumerate(riv):
                         k = list(ios).index(p)
                         dmain, drival = bool(vals[3 * k]), bool(vals[base_r + 2 * j])
+                        if p.partition("#")[0] in model.shared_ports:
+                            # a documented nonexclusive method: two callers requesting it in one cycle are both served, with the same result
+                            if whos.get(p) == "both":
+                                same_out = (not dmain) or todict(vals[3 * k + 1]) == todict(vals[base_r + 2 * j + 1])
+                                if not rec.check("nonexclusive_method_serves_every_caller_with_the_same_result", dmain == drival and same_out, klass=klass, case=case,
+                                                 detail={"port": p, "main_done": dmain, "rival_done": drival, "last_cycles": list(log)}):
+                                    state["stop"] = True
+                                if dmain and drival:
+                                    rec.count("nonexclusive_calls_served_to_two_callers")
+                            continue
                         if not rec.check("exclusive_method_serves_at_most_one_caller_per_cycle", not (dmain and drival), klass=klass, case=case,
                                          detail={"port": p, "main_done": dmain, "rival_done": drival, "args": args[p], "last_cycles": list(log)}):
                             state["stop"] = True
